@@ -115,15 +115,16 @@ func (g *GlobalTransactionManager) Commit(ctx context.Context, gtr *GlobalTransa
 }
 
 // commitRefusal tells whether the coordinator's reply to a global commit is something else than an
-// acknowledgement: the reply says the transaction is being or has been rolled back (it timed out, say), or
+// acknowledgement: the reply says the transaction is being or has been rolled back (it timed out, say) or that
+// the commit failed, or
 // its result code is Failed and its status does not say that the commit has been decided all the same.
 func commitRefusal(resp message.GlobalCommitResponse) error {
 	switch resp.GlobalStatus {
 	case message.GlobalStatusRollbacking, message.GlobalStatusRollbackRetrying, message.GlobalStatusRollbacked,
 		message.GlobalStatusRollbackFailed, message.GlobalStatusTimeoutRollbacking,
 		message.GlobalStatusTimeoutRollbackRetrying, message.GlobalStatusTimeoutRollbacked,
-		message.GlobalStatusTimeoutRollbackFailed:
-		return fmt.Errorf("global commit answered with rollback status %d: %s", resp.GlobalStatus, resp.Msg)
+		message.GlobalStatusTimeoutRollbackFailed, message.GlobalStatusCommitFailed:
+		return fmt.Errorf("global commit answered with status %d (not committed): %s", resp.GlobalStatus, resp.Msg)
 	case message.GlobalStatusCommitting, message.GlobalStatusCommitRetrying, message.GlobalStatusAsyncCommitting,
 		message.GlobalStatusCommitted:
 		return nil
